@@ -792,6 +792,25 @@ fn random_zone(rng: &mut StdRng) -> Vec<Value> {
         2 => z.push(json!({"bulk":"TXT","n": rng.random_range(100..1500u64), "p": "t"})),
         _ => {}
     }
+    // a zone is a set of records
+    let mut seen = std::collections::HashSet::new();
+    z.retain(|d| {
+        let mut k = d.clone();
+        if let Some(o) = k.as_object_mut() {
+            o.remove("ttl");
+        }
+        seen.insert(k.to_string())
+    });
+    // one TTL per RRset (RFC 2181 5.2): the first one given wins
+    let mut ttl_of: std::collections::HashMap<(String, String), Value> = Default::default();
+    for d in z.iter_mut() {
+        if let (Some(o), Some(t)) = (d.get("o").and_then(Value::as_str), d.get("t").and_then(Value::as_str)) {
+            let key = (o.to_ascii_lowercase(), t.to_string());
+            let ttl = d.get("ttl").cloned().unwrap_or(json!(3600));
+            let first = ttl_of.entry(key).or_insert(ttl).clone();
+            d["ttl"] = first;
+        }
+    }
     z
 }
 
